@@ -30,6 +30,30 @@ CHECKS['C01'] = dict(
         'property names the pinned interpreter as the hardware-validated reference). States are sampled (k per opcode), not '
         'enumerated; the arithmetic kernels are additionally proved exact at scaled width (C03/C04).',
    technique='TLA+ instruction-set specification + TLC trace validation of single-instruction executions of the real interpreter')
+CHECKS['C03'] = dict(
+   text='The limb operators behind add/sub/compare/logic, the Z/M/E/N flags and the saturator are compared with integer arithmetic '
+        'for ALL operand pairs at a scaled limb width (TLC, exhaustive), and every encoding of these instruction families is '
+        'executed by the real interpreter from boundary-clustered states with each execution validated in full by TLC at full width.',
+   design_ref='5.3',
+   note='Trusted: TLC, CommunityModules, g++, the frozen TLA+ semantics. Exhaustive only at limb width 4; full-width coverage is '
+        'boundary-clustered sampling of every encoding.',
+   technique='TLA+ spec: exhaustive TLC theorems at scaled width + TLC trace validation of real instruction executions')
+CHECKS['C04'] = dict(
+   text='Shifter (all values x all shift counts 0..42 x modes), exponent, multiplier (all factor pairs x sign selections x half-word '
+        'modes) and product-shift operators are compared exhaustively with integer arithmetic at scaled widths by TLC; every encoding '
+        'of the multiply/mac/mma/shift/exp families is executed by the real interpreter and validated in full by TLC at full width.',
+   design_ref='5.4',
+   note='Trusted: TLC, CommunityModules, g++, the frozen TLA+ semantics. One known finding (carry of a shift by exactly 40) is '
+        'pinned as a named deviation so that any other deviation is still reported.',
+   technique='TLA+ spec: exhaustive TLC theorems at scaled width + TLC trace validation of real instruction executions')
+CHECKS['C11'] = dict(
+   text='Memory.tla gives one operator per accessor (host program/data/A32/MMIO/raw views, guest fetch/load/store) over one byte '
+        'array with the MIU address formation; TLC explores every history within a deviation budget on a scaled geometry against the '
+        'view-agreement and MMIO-window invariants, and validates recorded histories at the real geometry, including the raw byte '
+        'addresses observed by the memory hook and full-memory scans.',
+   design_ref='5.11',
+   note='Trusted: TLC, CommunityModules, g++. MMIO offsets used are plain-storage cells; page mode 1 as coded.',
+   technique='TLA+ spec + TLC bounded exhaustive model checking + TLC trace validation of recorded accessor histories')
 NOT_YET = {}
 def main():
     props = [json.loads(l)['id'] for l in open(os.path.join(V, 'properties.jsonl'))]
